@@ -102,3 +102,67 @@ def run(ctx):
         callers = [c for c in prog.calls_matching_all(suffix('checksum::verify_checksum')) if (c.fn or '').endswith('verify_checksum')]
         ctx.floor(R4, len(callers), 2, 'verify_checksum call sites')
         ctx.extra['verify_checksum_callers'] = [c.body.name for c in callers]
+
+    R5 = 'C18-R5'
+    ctx.rule(R5, 'checksums are on by default for a database opened from the command line: StorageOptions::default_for_cli sets '
+                 'checksum_type = Crc32')
+    d = prog.body(SEC + 'options::StorageOptions::default_for_cli')
+    if ctx.anchor(R5, 'StorageOptions::default_for_cli', d is not None):
+        ctx.functions_analysed.add(d.name)
+        val = None
+        for bb, st in d.aggregates(SEC + 'options::StorageOptions'):
+            rv = st['rv']
+            if 'checksum_type' in rv['fields']:
+                op = rv['ops'][rv['fields'].index('checksum_type')]
+                if op['k'] != 'const':
+                    for bb2, st2 in d.stmts():
+                        if st2['lhs']['l'] == op['pl']['l'] and st2.get('rv', {}).get('rv') == 'agg':
+                            val = st2['rv'].get('variant')
+                else:
+                    val = op.get('v')
+        ctx.ob(R5, 'default_for_cli·checksum_type', val == 'Crc32', f'default_for_cli sets checksum_type = {val}', [d.loc])
+
+    R6 = 'C18-R6'
+    ctx.rule(R6, 'writer and reader agree on what is stored around the checksum: the put_* sequence of the block trailer / index '
+                 'footer mirrors the get_* sequence of their decoders, the sizes add up to the declared constants, and the checksum is '
+                 'computed before the part it does not cover is appended')
+    W = {'u8': 1, 'i8': 1, 'u16': 2, 'i16': 2, 'u32': 4, 'i32': 4, 'u64': 8, 'i64': 8}
+
+    def seq(body, kind):
+        pat = re.compile(r'(?:BufMut::put_|Buf::get_)([a-z0-9_]+)$')
+        return [m.group(1) for c in sorted(body.calls, key=lambda c: c.bb)
+                for m in [pat.search(c.fn or '')] if m and ((kind == 'put') == ('put_' in (c.fn or '')))]
+    enc1 = prog.body(SEC + 'block::BlockMeta::encode_except_checksum')
+    enc2 = prog.body(SEC + 'block::BlockMeta::encode_checksum')
+    dec = prog.body(SEC + 'block::BlockMeta::decode')
+    if ctx.anchor(R6, 'BlockMeta::{encode_except_checksum, encode_checksum, decode}', enc1 is not None and enc2 is not None and dec is not None):
+        p1, p2, g = seq(enc1, 'put'), seq(enc2, 'put'), seq(dec, 'get')
+        consts = {k.rsplit('::', 1)[-1]: int(v['bits']) for k, v in prog.consts.items() if k.startswith(SEC + 'block::BLOCK_META')}
+        n1, n2 = sum(W.get(x.split('_')[0], 0) for x in p1), sum(W.get(x.split('_')[0], 0) for x in p2)
+        ok = p1 + p2 == g and consts.get('BLOCK_META_NON_CHECKSUM_SIZE') == n1 and consts.get('BLOCK_META_CHECKSUM_SIZE') == n2 \
+            and consts.get('BLOCK_META_SIZE') == n1 + n2
+        ctx.ob(R6, 'BlockMeta·trailer-mirror', ok, f'trailer written {p1}+{p2}, read {g}; constants {consts}; bytes {n1}+{n2}',
+               [enc1.loc, dec.loc])
+    fin = prog.body(SEC + 'index_builder::IndexBuilder::finish')
+    fb = prog.body(FROM_BYTES)
+    if ctx.anchor(R6, 'IndexBuilder::finish', fin is not None) and fb is not None:
+        ctx.functions_analysed.add(fin.name)
+        pw, gr = seq(fin, 'put'), seq(fb, 'get')
+        foot = prog.consts.get(SEC + 'index_builder::INDEX_FOOTER_SIZE')
+        nbytes = sum(W.get(x.split('_')[0], 0) for x in pw)
+        bc = [c.bb for c in fin.calls if (c.fn or '').endswith('build_checksum')]
+        puts = [c.bb for c in fin.calls if 'BufMut::put_' in (c.fn or '')]
+        before = bool(bc) and all(fin.dominated_by_any(set(bc), x) for x in puts)
+        ctx.ob(R6, 'index-footer·mirror', pw == gr and foot is not None and int(foot['bits']) == nbytes and before,
+               f'footer written {pw}, read {gr}; INDEX_FOOTER_SIZE={foot and foot["bits"]}, bytes written {nbytes}; checksum computed '
+               f'before the footer is appended: {before}', [fin.loc, fb.loc])
+    fbk = prog.body(SEC + 'block::block_index_builder::BlockIndexBuilder::finish_block')
+    if ctx.anchor(R6, 'BlockIndexBuilder::finish_block', fbk is not None):
+        ctx.functions_analysed.add(fbk.name)
+        bc = [c.bb for c in fbk.calls if (c.fn or '').endswith('build_checksum')]
+        e1 = [c.bb for c in fbk.calls if (c.fn or '').endswith('BlockMeta::encode_except_checksum')]
+        e2 = [c.bb for c in fbk.calls if (c.fn or '').endswith('BlockMeta::encode_checksum')]
+        ok = bool(bc and e1 and e2) and all(fbk.dominated_by_any(set(e1), x) for x in bc) and all(fbk.dominated_by_any(set(bc), x) for x in e2)
+        ctx.ob(R6, 'finish_block·type≺checksum≺trailer', ok,
+               f'encode_except_checksum {e1} must precede build_checksum {bc}, which must precede encode_checksum {e2}', [fbk.loc])
+
